@@ -15,7 +15,7 @@
    ([ok_path]); a slice component followed by further components is modelled and corresponded but neither
    proved nor refuted ([C02_heap_inner_slices_open]).  D4 (repaired) is kept as a regression example. *)
 From Coq Require Import List ZArith NArith.
-From Verif Require Import c02.Path c02.PathProofs c02.HeapPath c02.HeapInv c02.HeapProofs c02.HeapSlice c02.HeapAbs c02.HeapWitness.
+From Verif Require Import c02.Path c02.PathProofs c02.HeapPath c02.HeapInv c02.HeapProofs c02.HeapSlice c02.HeapAbs c02.HeapWitness c02.HeapSweep c02.HeapDelpaths c02.HeapReduce.
 Import ListNotations.
 
 (* The statement one would like (DESIGN section 5, C02 T.1): on ANY acyclic heap, for ANY path and ANY
@@ -57,6 +57,80 @@ Print Assumptions C02_abs_update.
 Theorem C02_invariant_acyclic : forall j h ps v fp, orep h ps j v fp -> forall fuel, depth j < fuel -> abs fuel h v = Some j.
 Proof. exact orep_abs. Qed.
 Print Assumptions C02_invariant_acyclic.
+
+(* ---- delpaths at heap level ---- *)
+(* [inv] = allocator well formed, no marker outside what the allocator owns, ownership invariant, one owner
+   each; [framed] = every value the allocator does not reach denotes what it denoted.
+   Mark-then-sweep with the owned-only deleteEmpty of the current code denotes Path.delpaths (every path
+   marked against the state it is given, one sweep at the end, so that indices keep their meaning), for
+   paths of keys / indices / a trailing slice; the result is acyclic and the invariant holds again. *)
+Theorem C02_abs_delpaths : forall paths h ps v j fp,
+  inv h ps j v fp -> Forall ok_path paths ->
+  match Path.delpaths j paths with
+  | None => forall fuel, HeapPath.delpaths current fuel h (Some ps) v paths = None
+  | Some j' => exists fuel0, forall fuel, fuel0 <= fuel ->
+      exists h' ps' u fp',
+        HeapPath.delpaths current fuel h (Some ps) v paths = Some (h', Some ps', u) /\
+        inv h' ps' j' u fp' /\ framed h ps h' ps' /\
+        (forall fuel', depth j' < fuel' -> abs fuel' h' u = Some j')
+  end.
+Proof. exact abs_delpaths. Qed.
+Print Assumptions C02_abs_delpaths.
+
+(* the sweep alone *)
+Theorem C02_sweep_sound : forall j ps fuel x f hc,
+  alloc_wf ps -> depth j < fuel -> hclean hc ps -> orep hc ps j x f -> NoDup f ->
+  exists h1 x' f', HeapPath.delete_empty fuel hc (Some ps) x = Some (h1, x') /\
+    orep h1 ps (Path.delete_empty j) x' f' /\ NoDup f' /\ post hc ps f h1 ps f'.
+Proof. exact sweep_sound. Qed.
+Print Assumptions C02_sweep_sound.
+
+(* getpath hands out an alias that denotes Path.getpath *)
+Theorem C02_getpath_sound : forall q, ok_path q -> forall h ps j v fp,
+  orep h ps j v fp ->
+  match getpath j q with
+  | None => h_getpath h v q = None
+  | Some jx => exists x, h_getpath h v q = Some x /\ denotes h x jx
+  end.
+Proof. exact getpath_sound. Qed.
+Print Assumptions C02_getpath_sound.
+
+(* ---- the defining reductions: the compiled loops with ONE allocator shared by all setpath calls ---- *)
+(* `p = $x`: the loop of compileAssign equals the fold of Path.update, for a new value without allocated
+   container (always the case: $x exists before the allocator does) *)
+Theorem C02_assign_sound : forall qs h ps v j fp n jn,
+  inv h ps j v fp -> frep h ps jn n -> Forall ok_path qs ->
+  match assign_v j qs jn with
+  | None => assign_loop h (Some ps) v qs n = None
+  | Some j' => exists h' ps' u fp',
+      assign_loop h (Some ps) v qs n = Some (h', Some ps', u) /\ inv h' ps' j' u fp' /\ framed h ps h' ps' /\
+      denotes h' u j'
+  end.
+Proof. exact assign_sound. Qed.
+Print Assumptions C02_assign_sound.
+
+(* `p |= f`: the loop of compileModify (getpath hands an alias to the body, first output of the body, empty
+   => the path is collected, one delpaths with the same allocator at the end) equals the defining reduction
+   [modify_v] (= _mref of the harness) WHEN the body satisfies [body_ok]: its output never contains a
+   container the allocator may still write in place.  The known findings D5 and D9 are exactly the runs
+   outside this side condition (`[.]`, `[.,.]` given an allocated container or a slice of one). *)
+Theorem C02_modify_sound : forall fv fh, body_ok fv fh -> forall qs h ps v j fp,
+  inv h ps j v fp -> Forall ok_path qs ->
+  match modify_v fv j qs with
+  | None => forall fuel, modify fh fuel h (Some ps) v qs = None
+  | Some j' => exists fuel0, forall fuel, fuel0 <= fuel ->
+      exists h' ps' u fp',
+        modify fh fuel h (Some ps) v qs = Some (h', Some ps', u) /\
+        inv h' ps' j' u fp' /\ framed h ps h' ps' /\ denotes h' u j'
+  end.
+Proof. exact modify_sound. Qed.
+Print Assumptions C02_modify_sound.
+
+(* the side condition is satisfiable, and the compiled loop computes on a concrete heap *)
+Example C02_body_ok_const : forall z, body_ok (fun _ => Some (JNum z)) (fun h _ => (h, Some (HNum z))).
+Proof. exact body_ok_const. Qed.
+Example C02_body_ok_empty : body_ok (fun _ => None) (fun h _ => (h, None)).
+Proof. exact body_ok_empty. Qed.
 
 (* ---- the full statement is false; each of the two hypotheses is necessary (known findings D5, D9) ---- *)
 Theorem C02_heap_full_refuted : ~ C02_heap_full.
